@@ -552,7 +552,18 @@ def run_unit(unit, tier='quick', seed=0):
                                  'first_obligation': (ctx.obligations[0][0] + ': ' + ctx.obligations[0][1].short(4)
                                                       + ' == ' + ctx.obligations[0][2].short(4)) if ctx.obligations else None}
             S.set_ctx(None)
+            nfail = len(res['fact_failures'])
             decide_path(unit, ctx, res, rng, tier)
+            if len(res['fact_failures']) > nfail and not res['violations']:
+                # a concrete assertion failed on this symbolic path: replay at a point of this path
+                for _ in range(2):
+                    w = witness_env(ctx, rng)
+                    if w is None:
+                        break
+                    fctx, st = run_float(unit, w)
+                    if fctx is not None and fctx.float_failures:
+                        res['violations'].append(_write_replay(unit, w, list(fctx.float_failures), fctx.float_failures[0][0]))
+                        break
             if unit.opts.get('validate', True) and (res['paths'] <= unit.opts.get('validate_paths', 3)):
                 validate_path(unit, ctx, res, rng)
         except Exception as e:
